@@ -74,9 +74,16 @@ def _cases(draw, tier):
     lecmult = (name in ('mincost', 'minsqcost') and inst['lprefs'] is not None
                and pct(draw) < 50)
     want_stab = True if (forced and kw['cls'] != 'lower_quotas') else None
+    want_pc = None
+    if name in ('lmb', 'lsb', 'mincostlsb') and inst['na'] == 3 and pct(draw) < 35:
+        # project closures x block lower quotas x free targets: what a closed project does to
+        # its lecturer's load is where bounds and 'redundant' rows go wrong
+        strategies.load_tradeoff(draw, inst)
+        want_pc = pct(draw) < 85
+        want_stab = False
     opts = draw(strategies.option_sets(inst, min_crit=1, max_crit=1, names=[name],
                                        twopl=True if (lecmult or want_stab) else None,
-                                       stab=want_stab))
+                                       stab=want_stab, pc=want_pc))
     if lecmult:
         opts['crit'][0][2] = [draw(st.sampled_from([0, 1, 2, 3])),
                               draw(st.sampled_from([1, 2, 3]))]
